@@ -255,15 +255,26 @@ Proof.
   rewrite <- pairs_fst, map_map. reflexivity.
 Qed.
 
-Theorem package_chunk_tiles o raw_src raw_want lineno ps :
+(* the tiling, together with where the boundaries come from: 0 or a statement start *)
+Definition PartsTileFrom (ps1 : list nat) (lineno : nat) (src want : list str) (ps : list part) : Prop :=
+  exists bs, hd_error bs = Some O /\ Ascending bs /\
+    map orig_lines ps = tiles bs src /\
+    map exec_lines ps = tiles bs (map (skipn 4) src) /\
+    map line_offset ps = map (Nat.add lineno) bs /\
+    map want_lines ps = repeat [] (length bs - 1) ++ [want] /\
+    (forall y, In y bs -> y = 0 \/ In y ps1).
+
+Lemma package_chunk_tiles_from' o raw_src raw_want lineno ps ps1 mode_hint :
+  locate_ps1 o (dedent_chunk raw_src) = Ok (ps1, mode_hint) ->
   package_chunk o raw_src raw_want lineno = Ok ps ->
-  PartsTile lineno (dedent_chunk raw_src) (dedent_want raw_src raw_want) ps.
+  PartsTileFrom ps1 lineno (dedent_chunk raw_src) (dedent_want raw_src raw_want) ps.
 Proof.
+  intros LOC.
   unfold package_chunk. destruct raw_src as [|first more]; [discriminate|].
   set (li := line_indent first). set (src := map (skipn li) (first :: more)).
   set (want := map (skipn li) raw_want). set (ea := map (skipn 4) src).
   change (dedent_chunk (first :: more)) with src. change (dedent_want (first :: more) raw_want) with want.
-  destruct (locate_ps1 o src) as [[ps1 mode_hint]|e] eqn:LOC; [|discriminate]. cbn [bind].
+  change (dedent_chunk (first :: more)) with src in LOC. rewrite LOC. cbn [bind]. unfold PartsTileFrom.
   destruct (ps1_directives o ea ps1) as [[tab brk]|e] eqn:PD; [|discriminate]. cbn [bind].
   pose proof (locate_ps1_asc _ _ _ _ LOC) as Aps1.
   pose proof (ps1_directives_breaks _ _ _ _ _ PD) as Hbrk.
@@ -300,7 +311,7 @@ Proof.
     + destruct (slice_example ea src tab o lineno s1a None want _) as [lastp|e] eqn:SL; [|discriminate]. cbn [bind].
       intros H. inversion H; subst ps. clear H. apply slice_example_ok in SL. destruct SL as (S1 & S2 & S3 & S4).
       cbn [slice_to] in S1, S2. exists bs1. split; [exact Hhd|]. split; [exact Hasc|].
-      cbn [app]. apply assemble; assumption.
+      cbn [app]. rewrite <- !and_assoc. split; [rewrite !and_assoc; apply assemble; assumption | exact Hin].
     + destruct (slice_example ea src tab o lineno s1a (Some s2) [] M_exec) as [p2|e] eqn:SP; [|discriminate]. cbn [bind].
       destruct (slice_example ea src tab o lineno s2 None want _) as [lastp|e] eqn:SL; [|discriminate]. cbn [bind].
       intros H. inversion H; subst ps. clear H.
@@ -316,7 +327,10 @@ Proof.
       assert (CP : consecutive_pairs (bs1 ++ [s2]) = consecutive_pairs bs1 ++ [(s1a, s2)])
         by (apply consecutive_pairs_snoc'; assumption).
       replace (parts1 ++ [p2; lastp]) with ((parts1 ++ [p2]) ++ [lastp]) by (rewrite <- app_assoc; reflexivity).
-      fold ea. apply assemble; rewrite ?last_snoc; try assumption.
+      fold ea. rewrite <- !and_assoc. split.
+      2: { intros y Hy. apply in_app_or in Hy. destruct Hy as [Hy|[<-|[]]]; [apply Hin; exact Hy|].
+           right. subst s2. rewrite Eps1. apply last_in. discriminate. }
+      rewrite !and_assoc. apply assemble; rewrite ?last_snoc; try assumption.
       * destruct bs1; discriminate.
       * rewrite CP, !map_app. cbn [map fst snd]. rewrite M1, P1. reflexivity.
       * rewrite CP, !map_app. cbn [map fst snd]. rewrite M2, P2. reflexivity.
@@ -326,7 +340,27 @@ Proof.
     destruct (slice_example ea src tab o lineno s1a None want _) as [lastp|e] eqn:SL; [|discriminate]. cbn [bind].
     intros H. inversion H; subst ps. clear H. apply slice_example_ok in SL. destruct SL as (S1 & S2 & S3 & S4).
     cbn [slice_to] in S1, S2. exists bs1. split; [exact Hhd|]. split; [exact Hasc|].
-    cbn [app]. apply assemble; assumption.
+    cbn [app]. rewrite <- !and_assoc. split; [rewrite !and_assoc; apply assemble; assumption | exact Hin].
+Qed.
+
+Lemma package_chunk_tiles_from o raw_src raw_want lineno ps :
+  package_chunk o raw_src raw_want lineno = Ok ps ->
+  exists ps1 mode, locate_ps1 o (dedent_chunk raw_src) = Ok (ps1, mode) /\
+    PartsTileFrom ps1 lineno (dedent_chunk raw_src) (dedent_want raw_src raw_want) ps.
+Proof.
+  intros H. destruct (locate_ps1 o (dedent_chunk raw_src)) as [[ps1 mode]|e] eqn:LOC.
+  - exists ps1, mode. split; [reflexivity|]. eapply package_chunk_tiles_from'; eassumption.
+  - exfalso. unfold package_chunk in H. destruct raw_src as [|first more]; [discriminate|].
+    change (map (skipn (line_indent first)) (first :: more)) with (dedent_chunk (first :: more)) in H.
+    rewrite LOC in H. discriminate.
+Qed.
+
+Theorem package_chunk_tiles o raw_src raw_want lineno ps :
+  package_chunk o raw_src raw_want lineno = Ok ps ->
+  PartsTile lineno (dedent_chunk raw_src) (dedent_want raw_src raw_want) ps.
+Proof.
+  intros H. apply package_chunk_tiles_from in H. destruct H as (ps1 & mode & _ & bs & A & B & C & D & E & F & _).
+  exists bs. repeat split; assumption.
 Qed.
 
 (* the source lines of a chunk are the concatenation of its parts' lines, in order *)
@@ -382,3 +416,120 @@ Proof.
   destruct (label_lines_partition _ _ _ L) as [A B].
   repeat split; [exact A | exact B | apply group_lines_partition; exact G | apply package_groups_tiled with (o := o); exact P].
 Qed.
+
+(* ---------- line offsets are line indices ---------- *)
+
+Lemma hack_comments_length : forall lines starts i, length (hack_comments lines starts i) = length lines.
+Proof. induction lines as [|l ls IH]; intros starts i; simpl; [reflexivity | rewrite IH; reflexivity]. Qed.
+
+Lemma locate_ps1_in_range o src ps1 mode :
+  AstInRange o -> locate_ps1 o src = Ok (ps1, mode) -> forall x, In x ps1 -> x < length src.
+Proof.
+  intros HR. unfold locate_ps1. intros H.
+  destruct (balanced_intervals (o_bal o) (map (skipn 4) src)) as [ivs|e]; [|discriminate]. cbn [bind] in H.
+  destruct (o_ast o _) as [stmts|e] eqn:A; [|discriminate]. cbn [bind] in H.
+  assert (R : forall x, In x (map st_line stmts) -> x < length src).
+  { intros x Hx. apply in_map_iff in Hx. destruct Hx as (s & <- & Hs).
+    specialize (HR _ _ A s Hs). rewrite hack_comments_length, map_length in HR. exact HR. }
+  match type of H with context [filter ?f (sort_uniq ?l)] =>
+    assert (P : forall x, In x (filter f (sort_uniq l)) -> x < length src)
+      by (intros x Hx; apply filter_In in Hx; destruct Hx as [Hx _]; apply (proj1 (sort_uniq_in _ _)) in Hx; apply R; exact Hx);
+    set (F := filter f (sort_uniq l)) in * end.
+  match type of H with (match ?m with _ => _ end) = _ => destruct m end.
+  - inversion H; subst; exact P.
+  - destruct (o_semi o _) as [semi|e]; [|discriminate]. cbn [bind] in H. inversion H; subst; exact P.
+  - inversion H; subst; exact P.
+Qed.
+
+Lemma slice_length {A} (a b : nat) (l : list A) : a <= b -> b <= length l -> length (slice a b l) = b - a.
+Proof. intros H1 H2. unfold slice. rewrite firstn_length, skipn_length. lia. Qed.
+
+Lemma tiles_consecutive (src : list str) n : forall bs a ps,
+  Ascending (a :: bs) -> (forall y, In y (a :: bs) -> y <= length src) ->
+  map line_offset ps = map (Nat.add n) (a :: bs) -> map orig_lines ps = tiles (a :: bs) src ->
+  Consecutive (n + a) ps (n + length src).
+Proof.
+  induction bs as [|b bs IH]; intros a ps HA HB HO HT.
+  - unfold tiles in HT. simpl in HT, HO. destruct ps as [|p [|q r]]; try discriminate.
+    cbn [map] in HO, HT. inversion HO as [O1]. inversion HT as [T1]. cbn [Consecutive]. split; [reflexivity|].
+    rewrite O1, T1, skipn_length. specialize (HB a (or_introl eq_refl)). lia.
+  - destruct ps as [|p r]; [discriminate|].
+    unfold tiles in HT. change (consecutive_pairs (a :: b :: bs)) with ((a, b) :: consecutive_pairs (b :: bs)) in HT.
+    cbn [map fst snd app] in HT. change (last (a :: b :: bs) 0) with (last (b :: bs) 0) in HT.
+    cbn [map] in HO. inversion HO as [[O1 O2]]. inversion HT as [[T1 T2]]. destruct HA as [Hab HA].
+    cbn [Consecutive]. split; [reflexivity|]. rewrite O1, T1.
+    rewrite slice_length; [| lia | apply HB; right; left; reflexivity].
+    replace (n + a + (b - a)) with (n + b) by lia.
+    apply IH; [exact HA | intros y Hy; apply HB; right; exact Hy | exact O2 | exact T2].
+Qed.
+
+Theorem package_chunk_consecutive o raw_src raw_want lineno ps :
+  AstInRange o -> package_chunk o raw_src raw_want lineno = Ok ps ->
+  Consecutive lineno ps (lineno + length raw_src).
+Proof.
+  intros HR H. apply package_chunk_tiles_from in H.
+  destruct H as (ps1 & mode & LOC & bs & Hhd & Hasc & E1 & _ & E3 & _ & Hin).
+  pose proof (locate_ps1_in_range _ _ _ _ HR LOC) as R.
+  destruct bs as [|a bs]; [discriminate|]. simpl in Hhd. inversion Hhd; subst a.
+  assert (L : length (dedent_chunk raw_src) = length raw_src).
+  { destruct raw_src as [|f m]; [reflexivity|]. unfold dedent_chunk. apply map_length. }
+  rewrite <- L. rewrite <- (Nat.add_0_r lineno) at 1.
+  apply tiles_consecutive with (bs := bs); try assumption.
+  intros y Hy. destruct (Hin y Hy) as [->|Hy']; [lia|]. specialize (R y Hy'). lia.
+Qed.
+
+Theorem package_groups_laid_out o : AstInRange o -> forall chunks lineno items,
+  package_groups o chunks lineno = Ok items -> LaidOut lineno chunks items.
+Proof.
+  intros HR. induction chunks as [|c rest IH]; intros n items H.
+  - simpl in H. inversion H. constructor.
+  - destruct c as [ls|s w]; cbn [package_groups] in H.
+    + destruct (package_groups o rest (n + length ls)) as [r|e] eqn:R; [|discriminate]. cbn [bind] in H.
+      inversion H; subst. constructor. apply IH. exact R.
+    + destruct (package_chunk o s w n) as [ps|e] eqn:PC; [|discriminate]. cbn [bind] in H.
+      destruct (package_groups o rest (n + length s + length w)) as [r|e] eqn:R; [|discriminate]. cbn [bind] in H.
+      inversion H; subst. constructor; [eapply package_chunk_consecutive; eassumption | apply IH; exact R].
+Qed.
+
+(* end to end: the line offset recorded in each part is the index of its first line among the labelled lines,
+   which correspond one to one to the docstring's lines *)
+Theorem parse_offsets o s items :
+  AstInRange o -> parse o s = Parsed items ->
+  exists (ll : list (label * str)) gs,
+    length ll = length (splitlines (normalize_docstring s)) /\
+    flatten_chunks gs = map snd ll /\
+    LaidOut 0 gs items.
+Proof.
+  intros HR. unfold parse. destruct (label_lines (o_bal o) (normalize_docstring s)) as [ll|e] eqn:L.
+  2: { destruct e; discriminate. }
+  destruct (group_lines ll) as [gs|e] eqn:G.
+  2: { destruct e; discriminate. }
+  destruct (package_groups o gs 0) as [its|e] eqn:P.
+  2: { destruct e; discriminate. }
+  intros H. inversion H; subst. exists ll, gs.
+  destruct (label_lines_partition _ _ _ L) as [A _].
+  repeat split; [exact A | apply group_lines_partition; exact G | apply package_groups_laid_out with (o := o); assumption].
+Qed.
+
+(* ---------- the hypotheses are satisfiable: a concrete chunk under a concrete in-range oracle ---------- *)
+(* two statements `>>> a` / `>>> b` followed by the want `w`; the oracle answers as CPython does on them:
+   every slice is balanced, one expression statement per line, no semicolon, no directive *)
+Definition demo_oracle : oracles :=
+  mkOracles (fun _ => Ok T_ok)
+            (fun lines => Ok (map (fun i => mkStmt i None true) (seq 0 (length lines))))
+            (fun _ => Ok false) (fun _ => Ok []).
+
+Lemma demo_oracle_in_range : AstInRange demo_oracle.
+Proof.
+  intros lines stmts H s Hs. simpl in H. inversion H; subst. apply in_map_iff in Hs.
+  destruct Hs as (i & <- & Hi). apply in_seq in Hi. unfold st_line. simpl. lia.
+Qed.
+
+Definition demo_src : list str := [[62;62;62;32;97]; [62;62;62;32;98]]%N.
+Definition demo_want : list str := [[119]]%N.
+
+Example demo_chunk_two_parts :
+  exists p1 p2, package_chunk demo_oracle demo_src demo_want 7 = Ok [p1; p2] /\
+    line_offset p1 = 7 /\ line_offset p2 = 8 /\ want_lines p1 = [] /\ want_lines p2 = demo_want /\
+    Consecutive 7 [p1; p2] 9.
+Proof. vm_compute. eexists. eexists. repeat split. Qed.
